@@ -640,6 +640,79 @@ def encapsulated(ctx, report, rule, facts, config, prop):
     report.floor(rule, "functions a user can call", m, 50, config=config)
 
 
+# ------------------------------------------------------------------ what the analysed configurations cover
+
+AUDITED_FEATURES = set(["default", "parallel", "nightly", "shred-derive", "rayon"])
+CFG_ATOMS = set(["test", "debug_assertions", "rustfmt", "doc", "not", "all", "any", "feature"])
+
+
+def configurations(ctx, report, rule):
+    """The rules look at the crate as compiled in four feature configurations.  Code behind any other switch (a new cargo feature,
+    a new optional dependency, a cfg on the target or on a custom flag) is compiled in none of them and seen by no rule: such a
+    switch is reported, whatever the code behind it does."""
+    import os
+    import re
+    from .extract import REPO
+    feats = set()
+    try:
+        text = open(os.path.join(REPO, "Cargo.toml")).read()
+    except Exception as e:
+        report.ob(rule, "Cargo.toml", False, "cannot read the manifest: %s" % e)
+        return
+    sect = None
+    for line in text.splitlines():
+        line = line.split("#", 1)[0].rstrip()
+        m = re.match(r"^\[+([^\]]+)\]+\s*$", line.strip())
+        if m:
+            sect = m.group(1).strip()
+            continue
+        m = re.match(r"^([A-Za-z0-9_\-]+)\s*=\s*(.*)$", line.strip())
+        if not m:
+            continue
+        if sect == "features":
+            feats.add(m.group(1))
+        elif sect in ("dependencies", "build-dependencies") or (sect or "").startswith("target."):
+            if re.search(r"optional\s*=\s*true", m.group(2)):
+                feats.add(m.group(1))
+            # the trusted base names crates of the registry (atomic_refcell's counter protocol, rayon's join / install /
+            # for_each, the std-like containers): the same name pointing somewhere else is not what was trusted
+            if m.group(1) != "shred-derive" and re.search(r"\b(path|git|package|registry)\s*=", m.group(2)):
+                report.ob(rule, "dependency/%s" % m.group(1), False, "dependency `%s` is redirected (%s): the trusted base names the registry crate" % (m.group(1), m.group(2)[:60]), site="Cargo.toml")
+        if sect and (sect.startswith("patch") or sect.startswith("replace")):
+            report.ob(rule, "dependency/%s" % sect, False, "section [%s] replaces a dependency: the trusted base names the registry crates" % sect, site="Cargo.toml")
+    for f in sorted(feats | AUDITED_FEATURES):
+        if f in feats:
+            report.ob(rule, "feature/%s" % f, f in AUDITED_FEATURES, "covered by the analysed configurations" if f in AUDITED_FEATURES else
+                      "cargo feature `%s` is switched on in none of the analysed configurations: the code behind it is seen by no rule" % f, site="Cargo.toml")
+    n = 0
+    for root in ("src", os.path.join("shred-derive", "src")):
+        for dp, dn, fns in os.walk(os.path.join(REPO, root)):
+            for fn in sorted(fns):
+                if not fn.endswith(".rs"):
+                    continue
+                path = os.path.join(dp, fn)
+                src = open(path, errors="replace").read()
+                for m in re.finditer(r"cfg(?:_attr|!)?\s*\(", src):
+                    depth, i = 1, m.end()
+                    while i < len(src) and depth:
+                        depth += src[i] == "("
+                        depth -= src[i] == ")"
+                        i += 1
+                    pred = src[m.end():i - 1]
+                    if m.group(0).startswith("cfg_attr"):
+                        pred = pred.split(",", 1)[0]       # the condition; what it switches on is an attribute, not code
+                    n += 1
+                    line = src.count("\n", 0, m.start()) + 1
+                    bad = [a for a in re.findall(r"[A-Za-z_][A-Za-z0-9_]*", re.sub(r'"[^"]*"', "", pred)) if a not in CFG_ATOMS]
+                    bad += [f for f in re.findall(r'feature\s*=\s*"([^"]*)"', pred) if f not in AUDITED_FEATURES]
+                    if bad:
+                        report.ob(rule, "cfg/%s/%s" % (os.path.relpath(path, REPO), ",".join(sorted(set(bad)))), False,
+                                  "code under cfg(%s) depends on `%s`, which none of the analysed configurations sets: seen by no rule" % (pred.strip()[:60], ", ".join(sorted(set(bad)))),
+                                  site="%s:%d" % (os.path.relpath(path, REPO), line))
+    report.ob(rule, "switches", True, "%d conditional-compilation switch(es) looked at, %d cargo feature(s)" % (n, len(feats)))
+    report.floor(rule, "conditional-compilation switches", n, 20)
+
+
 # ------------------------------------------------------------------ BUILD wiring
 
 def _returns_appended_index(ctx, facts, name):
